@@ -150,6 +150,15 @@ READY rows first when `viewReady`, then WORKING rows -/
 def plotlyRows (init unit : Rat) (viewReady : Bool) (r : List Iv × List Iv) : List (Rat × Rat) :=
   (if viewReady then r.1.map (plotlyRow init unit) else []) ++ r.2.map (plotlyRow init unit)
 
+/-- the (Start, Finish, kind) rows `BaseTeam/BaseWorkplace.create_data_for_gantt_plotly` produce for one
+worker / facility: READY rows (if asked), then ABSENCE rows (if asked), then WORKING rows; kind 0/1/2 =
+READY/WORKING/ABSENCE -/
+def plotlyRowsR (init unit : Rat) (viewReady viewAbsence : Bool) (r : List Iv × List Iv × List Iv) :
+    List (Rat × Rat × Nat) :=
+  (if viewReady then r.1.map (fun iv => ((plotlyRow init unit iv).1, (plotlyRow init unit iv).2, 0)) else []) ++
+  (if viewAbsence then r.2.2.map (fun iv => ((plotlyRow init unit iv).1, (plotlyRow init unit iv).2, 2)) else []) ++
+  r.2.1.map (fun iv => ((plotlyRow init unit iv).1, (plotlyRow init unit iv).2, 1))
+
 /-- `__extract_state_*_list(target_time_list, target_state)` as the ascending index list -/
 def extractIdx {σ : Type} [DecidableEq σ] (n : Nat) (log : Nat → List σ) (times : List Nat) (st : σ) :
     List Nat :=
